@@ -94,6 +94,9 @@ def main():
         shutil.rmtree(ROOT, ignore_errors=True); sh("git -C /repo worktree prune"); return
     global SEEDDIR
     jobs, tier, props = 4, "quick", None
+    base = 0
+    if "--slot-base" in a:
+        i = a.index("--slot-base"); base = int(a[i + 1]); del a[i:i + 2]
     if "--dir" in a:
         i = a.index("--dir"); SEEDDIR = a[i + 1]; del a[i:i + 2]
     if "--jobs" in a:
@@ -129,7 +132,7 @@ def main():
                     print(f"{n} vs {p} ({tier}): exit={v['exit']} in {v.get('wall_s')}s", flush=True)
                     for l in v["lines"][:4]:
                         print("    " + l[:200], flush=True)
-    ts = [threading.Thread(target=worker, args=(k,)) for k in range(min(jobs, max(1, len(names))))]
+    ts = [threading.Thread(target=worker, args=(base + k,)) for k in range(min(jobs, max(1, len(names))))]
     [t.start() for t in ts]; [t.join() for t in ts]
 
 if __name__ == "__main__":
